@@ -37,10 +37,15 @@ def c02(ctx: Ctx):
         ctx.tlc("MC_C02", "MC_C02.cfg", label="D LoaderImpl vs Designated on all universes (strict on clean, reproduces listed deviations)")
         ctx.tlc("MC_C02", "MC_C02_pinned.cfg", expect_violation=True, label="D pinned resolver (before the repairs of F-C02-1): positions never visited")
         # D: what a Loader keeps between uses (visited-documents cache, in-progress set, the switch flipped between uses) as a state
-        # machine over all histories of <= 4 uses: the repaired design behaves like a fresh Loader at every use, the code as it
-        # is does not (F-C02-6; its shortest counterexamples are the entries file_abs_retry / resolvein_retry realised below)
-        ctx.tlc("LoaderReuse", "MC_LoaderReuse_repaired.cfg", workers=2, label="D LoaderReuse (repaired design): every use of a used Loader is like a fresh one")
-        ctx.tlc("LoaderReuse", "MC_LoaderReuse_pinned.cfg", workers=2, expect_violation=True, label="D LoaderReuse (code as it is): UsedLikeFresh counterexample (F-C02-6)")
+        # machine over all histories of <= 4 uses.  The code as built (since fcc1715) behaves like a fresh Loader at every use of
+        # the plain universe; the design before that repair does not (F-C02-6, refuted variant; its shortest counterexamples are the
+        # entries file_abs_retry / resolvein_retry realised below); as built, a universe whose external document refers back into
+        # the root still does not, because the cache lives as long as the Loader (open finding F-C02-7; entry file_abs_prior x
+        # crossdoc_local in the thorough tier); the variant "visited documents belong to one load" would
+        ctx.tlc("LoaderReuse", "MC_LoaderReuse_asbuilt.cfg", workers=2, label="D LoaderReuse (as built): every use of a used Loader is like a fresh one")
+        ctx.tlc("LoaderReuse", "MC_LoaderReuse_pinned.cfg", workers=2, expect_violation=True, label="D LoaderReuse (design before fcc1715, refuted): UsedLikeFresh counterexample (F-C02-6)")
+        ctx.tlc("LoaderReuse", "MC_LoaderReuse_backref.cfg", workers=2, expect_violation=True, label="D LoaderReuse (as built, external document refers back into the root): UsedLikeFresh counterexample (open F-C02-7)")
+        ctx.tlc("LoaderReuse", "MC_LoaderReuse_perload.cfg", workers=2, label="D LoaderReuse (variant: visited documents per load): like a fresh one also with back references")
         cases = gen_universes(ctx, ctx.tier)
         ctx.exhaustive = True
     ctx.build_driver()
